@@ -11,7 +11,7 @@ use rten_text::tokenizer::{Tokenizer, TokenizerOptions};
 use vcommon::{Rng, Trace, Value, arg_or, arg_usize, guarded, json, quiet_panics, seed_from_env};
 
 use crate::textgen::gen_text;
-use crate::util::{ByteChars, VocabMode, build_bpe, bytes_json, usizes_json};
+use crate::util::{ByteChars, IdPlan, VocabMode, assign_ids, build_bpe, bytes_json, usizes_json};
 
 /// Patterns for `Split` pre-tokenizers (always with the `Isolated` delimiter
 /// behaviour, which keeps all of the text).
@@ -73,6 +73,7 @@ struct Config {
     pre: Vec<Pre>,
     bert_noop_normalizer: bool,
     merges: Vec<(Vec<u8>, Vec<u8>)>,
+    ids: IdPlan,
     added: Vec<(u32, String)>,
     ignore_merges: bool,
     legacy_merges: bool,
@@ -187,8 +188,10 @@ fn gen_config(rng: &mut Rng) -> Config {
     let n_added = *rng.pick(&[0usize, 0, 1, 2]);
     let names = ["<|endoftext|>", "<s>", "[CLS]", "</s>", "<|im_start|>"];
     let mut added = Vec::new();
+    // added/special tokens at small, mid-range and extreme ids
+    let added_base = *rng.pick(&[90000u32, 90000, 1 << 16, (1 << 16) + 1, 1 << 24, (1 << 31) - 2, 1 << 31, u32::MAX - 1]);
     for i in 0..n_added {
-        added.push((90000 + i as u32, names[rng.below(names.len())].to_string()));
+        added.push((added_base + i as u32, names[rng.below(names.len())].to_string()));
     }
     added.dedup_by(|a, b| a.1 == b.1);
     let extra: Vec<String> = added.iter().map(|a| a.1.clone()).collect();
@@ -196,10 +199,17 @@ fn gen_config(rng: &mut Rng) -> Config {
     let pre: Vec<Pre> = (0..npre).map(|_| gen_pre(rng)).collect();
     let needs_json = pre.iter().any(|p| matches!(p, Pre::ByteLevel(false)));
     let via_json = needs_json || rng.chance(2, 3);
+    let merges = gen_merges(rng, &extra);
+    let taken: Vec<u32> = added.iter().map(|a| a.0).collect();
+    // bytes that are frequent in the generated texts (for the stride-2^16 product ids)
+    let hot = b" aetionslhrdu\n0123.,'\xc3\xa9\xe2\x80\xf0\x9f";
+    let dense = rng.chance(1, 4);
+    let ids = assign_ids(rng, &merges, hot, &taken, dense);
     Config {
         pre,
         bert_noop_normalizer: rng.chance(1, 5),
-        merges: gen_merges(rng, &extra),
+        merges,
+        ids,
         added,
         ignore_merges: rng.chance(1, 5),
         legacy_merges: rng.chance(1, 3),
@@ -208,32 +218,10 @@ fn gen_config(rng: &mut Rng) -> Config {
     }
 }
 
-/// Explicit vocabulary: seeded injective ids for bytes and products.
-fn explicit_ids(rng: &mut Rng, merges: &[(Vec<u8>, Vec<u8>)]) -> ([u32; 256], Vec<u32>) {
-    let mut pool: Vec<u32> = (0..(256 + merges.len() as u32 + 8)).collect();
-    if rng.chance(1, 2) {
-        rng.shuffle(&mut pool);
-    }
-    let mut byte_ids = [0u32; 256];
-    byte_ids.copy_from_slice(&pool[..256]);
-    let mut prod_id: HashMap<Vec<u8>, u32> = HashMap::new();
-    let mut next = 256;
-    let ids = merges
-        .iter()
-        .map(|(a, b)| {
-            let mut p = a.clone();
-            p.extend_from_slice(b);
-            *prod_id.entry(p).or_insert_with(|| {
-                next += 1;
-                pool[next - 1]
-            })
-        })
-        .collect();
-    (byte_ids, ids)
-}
-
 fn build_tokenizer(cfg: &Config, rng: &mut Rng, bc: &ByteChars) -> Result<Tokenizer, String> {
-    let (byte_ids, product_ids) = explicit_ids(rng, &cfg.merges);
+    let byte_ids = cfg.ids.byte_ids;
+    let product_ids = cfg.ids.product_ids.clone();
+    let _ = &rng;
     if cfg.via_json {
         let mut vocab = serde_json::Map::new();
         for b in 0..256usize {
@@ -347,6 +335,8 @@ pub fn main_roundtrip() {
                 "norm": if cfg.bert_noop_normalizer { "bert_noop" } else { "none" },
                 "nmerges": cfg.merges.len(), "nadded": cfg.added.len(), "ignore_merges": cfg.ignore_merges,
                 "vocab": if cfg.derived_vocab { "derived" } else { "explicit" },
+                "idscheme": if cfg.derived_vocab { "derived".to_string() } else { cfg.ids.scheme.clone() },
+                "added_ids": cfg.added.iter().map(|a| crate::util::id_hl(a.0)).collect::<Vec<_>>(),
                 "text": bytes_json(text.as_bytes()),
             }));
             let r = guarded(|| {
